@@ -25,11 +25,12 @@ pub(crate) enum Op {
     SetScripts { cmd: u8, list: Vec<(usize, bool, u64)> },
     Filters { batch: u64 },
     Download,
+    Finalize,
 }
 
 impl Op {
     fn name(&self) -> &'static str {
-        match self { Op::Init => "init", Op::Prove { on_fork: false, .. } => "tip-update", Op::Prove { on_fork: true, .. } => "fork-switch", Op::SetScripts { .. } => "set_scripts", Op::Filters { .. } => "filter-batch", Op::Download => "block-download" }
+        match self { Op::Init => "init", Op::Prove { on_fork: false, .. } => "tip-update", Op::Prove { on_fork: true, .. } => "fork-switch", Op::SetScripts { .. } => "set_scripts", Op::Filters { .. } => "filter-batch", Op::Download => "block-download", Op::Finalize => "check-point-finalization" }
     }
 }
 
@@ -50,7 +51,7 @@ pub(crate) struct World {
 }
 
 const INTERVAL: u64 = 10;
-const LAST_N: u64 = 6;
+const LAST_N: u64 = 20; // larger than any gap of these worlds: the sampled regime (and the listed C05 finding at gap = last-N + 1) stays out of the way
 
 pub(crate) fn build(plan: &Plan) -> World {
     let mut rng = Rng::new(plan.seed);
@@ -93,6 +94,8 @@ impl World {
                     Sent::GetBlockFilters(start) => { if start <= self.height { let m = serve_block_filters(bc, start, 7); let mut m2 = m; if start + 7 > self.height + 1 { m2 = serve_block_filters_upto(bc, start, self.height); } next.extend(net.fp_recv(p, filters_message(m2)).sent); } }
                     Sent::GetBlocksProof(req) => { match serve_blocks_proof(&bc.chain, &req) { Some(resp) => next.extend(net.lc_recv(p, blocks_proof_message(resp)).sent), None => next.extend(net.lc_recv(p, blocks_proof_new_tip(&bc.chain, self.height.min(bc.tip()))).sent) } }
                     Sent::GetBlocks(hashes) => { for h in hashes { if let Some(n) = bc.chain.number_of(&h) { next.extend(net.sp_recv(p, send_block_message(bc.chain.block(n))).sent); } } }
+                    Sent::GetBlockFilterHashes(start) => { if start >= 1 && start <= self.height { next.extend(net.fp_recv(p, filter_hashes_message(bc, start, (start + 11).min(self.height))).sent); } }
+                    Sent::GetBlockFilterCheckPoints(start) => { if start <= self.height { next.extend(net.fp_recv(p, check_points_message(bc, start, self.height, INTERVAL)).sent); } }
                     _ => {}
                 }
             }
@@ -104,6 +107,7 @@ impl World {
         match op {
             Op::Init => { self.start(); }
             Op::Prove { on_fork, height } => {
+                let before = (self.on_fork, self.height);
                 self.on_fork = *on_fork;
                 self.height = *height;
                 let (chain, h) = { let bc = if self.on_fork { &self.fork } else { &self.main }; (bc.chain.headers.len(), (*height).min(bc.tip())) };
@@ -111,8 +115,12 @@ impl World {
                 let peer = self.peer;
                 let net = self.net.as_mut().unwrap();
                 let bc = if *on_fork { &self.fork } else { &self.main };
-                net.prove_peer(peer, &bc.chain, h);
+                let proven = net.prove_peer(peer, &bc.chain, h);
                 self.height = h;
+                // the honest peer only serves what the client has accepted from it: if the announcement did not become the
+                // client's tip (not heavier, or beyond what the client can verify), the world stays where it was
+                let adopted = proven && net.storage.get_tip_header().calc_header_hash() == bc.chain.headers[h as usize].hash();
+                if !adopted { self.on_fork = before.0; self.height = before.1; }
                 self.mock_hashes();
             }
             Op::SetScripts { cmd, list } => {
@@ -134,6 +142,16 @@ impl World {
                 // only the batch itself; what it triggers (proof / block requests) is answered by a later download step
                 let r = net.fp_recv(peer, filters_message(m));
                 self.inbox.extend(r.sent.into_iter().filter(|(_, s)| !matches!(s, Sent::GetBlockFilters(_))));
+            }
+            Op::Finalize => {
+                // the peer reports its filter check points; the refresh tick finalizes what the quorum (one peer here) agrees on
+                let peer = self.peer;
+                let (fin, _) = self.storage.get_last_check_point();
+                let m = { let bc = if self.on_fork { &self.fork } else { &self.main }; check_points_message(bc, fin as u64 * INTERVAL, self.height, INTERVAL) };
+                let net = self.net.as_mut().unwrap();
+                let _ = net.fp_recv(peer, m);
+                let _ = net.lc_tick(crate::protocols::light_client::constant::REFRESH_PEERS_TOKEN);
+                self.mock_hashes();
             }
             Op::Download => {
                 // the peer first answers what it was asked before, then the periodic ticks re-request what is still open
@@ -187,10 +205,11 @@ impl World {
         self.service(first);
         let mut last = (u64::MAX, 0usize);
         for _ in 0..40 {
-            let sent = { let net = self.net.as_mut().unwrap(); let mut v = net.fp_tick(GET_BLOCK_FILTERS_TOKEN).sent; v.extend(net.lc_tick(GET_IDLE_BLOCKS_TOKEN).sent); v };
+            let sent = { let net = self.net.as_mut().unwrap(); let mut v = net.fp_tick(GET_BLOCK_FILTERS_TOKEN).sent; v.extend(net.fp_tick(1 /* GET_BLOCK_FILTER_HASHES_TOKEN */).sent); v.extend(net.lc_tick(GET_IDLE_BLOCKS_TOKEN).sent); v };
             self.service(sent);
             // FilterProtocol asks for filters at most every 15 s of wall-clock time; a fresh handler asks at once
             let now = (self.storage.get_min_filtered_block_number(), matched_records(self.net.as_ref().unwrap()).len());
+            if std::env::var("VERIF_DEBUG").is_ok() { eprintln!("DBG proven {:?} fin {:?} tip {} height {} on_fork {} cached {:?}", self.net.as_ref().unwrap().peers.get_state(&self.peer).map(|s| s.get_prove_state().map(|p| p.get_last_header().header().number())), self.storage.get_last_check_point().0, Unpack::<u64>::unpack(&self.storage.get_tip_header().raw().number()), self.height, self.on_fork, { let c = self.net.as_ref().unwrap().peers.get_cached_block_filter_hashes(); (c.0, c.1.len()) }); }
             if std::env::var("VERIF_DEBUG").is_ok() { eprintln!("DBG converge: min {} records {:?} scripts {:?} mem {:?}", now.0, matched_records(self.net.as_ref().unwrap()).iter().map(|r| (r.0, r.1, r.2.iter().map(|x| x.1).collect::<Vec<_>>())).collect::<Vec<_>>(), self.storage.get_filter_scripts().iter().map(|s| s.block_number).collect::<Vec<_>>(), self.net.as_ref().unwrap().peers.matched_blocks().read().map(|m| m.values().map(|v| (v.0, v.1.is_some())).collect::<Vec<_>>()).ok()); }
             if now == last { break; }
             last = now;
@@ -199,6 +218,19 @@ impl World {
             self.net.as_mut().unwrap().fp.last_ask_time.write().unwrap().take();
         }
     }
+}
+
+pub(crate) fn check_points_message(bc: &BodyChain, start: u64, height: u64, interval: u64) -> ckb_network::bytes::Bytes {
+    let first = start - start % interval;
+    let cps: Vec<packed::Byte32> = (0..).map(|k| first + k * interval).take_while(|n| *n <= height.min(bc.tip())).map(|n| bc.fhashes[n as usize].clone()).collect();
+    let content = packed::BlockFilterCheckPoints::new_builder().start_number(first.pack()).block_filter_hashes(cps.pack()).build();
+    packed::BlockFilterMessage::new_builder().set(content).build().as_bytes()
+}
+
+pub(crate) fn filter_hashes_message(bc: &BodyChain, start: u64, end: u64) -> ckb_network::bytes::Bytes {
+    let hs: Vec<packed::Byte32> = (start..=end.min(bc.tip())).map(|n| bc.fhashes[n as usize].clone()).collect();
+    let content = packed::BlockFilterHashes::new_builder().start_number(start.pack()).parent_block_filter_hash(bc.fhashes[start as usize - 1].clone()).block_filter_hashes(hs.pack()).build();
+    packed::BlockFilterMessage::new_builder().set(content).build().as_bytes()
 }
 
 pub(crate) fn serve_block_filters_upto(bc: &BodyChain, start: u64, end: u64) -> packed::BlockFilters {
@@ -262,10 +294,12 @@ fn make_plan(rng: &mut Rng, seed: u64) -> Plan {
     for _ in 0..rng.range(4, 9) {
         match rng.below(10) {
             0..=3 => ops.push(Op::Filters { batch: rng.range(2, 9) }),
-            4..=6 => ops.push(Op::Download),
+            4..=5 => ops.push(Op::Download),
+            6 => ops.push(if rng.chance(2, 3) { Op::Finalize } else { Op::Download }),
             7 => { let sid = rng.range(1, 2) as usize; let start = rng.range(0, len / 2); ops.push(Op::SetScripts { cmd: if rng.chance(3, 4) { 1 } else { 2 }, list: vec![(sid, rng.chance(3, 4), start)] }); }
             8 if !grown && !switched => { grown = true; ops.push(Op::Prove { on_fork: false, height: len - 1 }); }
-            _ if !switched && !grown => { switched = true; ops.push(Op::Prove { on_fork: true, height: len + 1 }); }
+            // three blocks above the proven tip: a gap of exactly last-N + 1 would run into the listed C05 finding (honest answer rejected)
+            _ if !switched && !grown => { switched = true; ops.push(Op::Prove { on_fork: true, height: h1 + 3 }); }
             _ => ops.push(Op::Filters { batch: rng.range(2, 9) }),
         }
     }
@@ -293,7 +327,9 @@ fn judge(w: &mut World, starts: &[(usize, bool, u64)]) -> Snapshot {
     let bc = if w.on_fork { &w.fork } else { &w.main };
     for (sid, is_lock, number) in &scripts {
         if *sid >= w.pool.len() { continue; }
-        let from = starts.iter().find(|s| s.0 == *sid && s.1 == *is_lock).map(|s| s.2).unwrap_or(0);
+        // the user may have registered the script more than once; what is promised is everything after the latest start
+        // number that is not above the number reported now
+        let from = starts.iter().filter(|s| s.0 == *sid && s.1 == *is_lock && s.2 <= *number).map(|s| s.2).max().unwrap_or(0);
         let expect = bc.live_cells(&w.pool[*sid], *is_lock, from, *number);
         let live_any = bc.live_cells(&w.pool[*sid], *is_lock, 0, *number);
         let got: Vec<_> = indexed_cells(&net, &w.pool[*sid], *is_lock).into_iter().filter(|c| c.0 <= *number).collect();
@@ -316,9 +352,10 @@ pub(crate) fn run(seed: u64, n: u64, out: &mut Out) {
         let plan = make_plan(&mut rng, seed * 10_000 + hist);
         // intended start number of every script ever registered
         let mut starts: Vec<(usize, bool, u64)> = Vec::new();
-        for op in &plan.ops { if let Op::SetScripts { cmd, list } = op { if *cmd != 2 { for s in list { if !starts.iter().any(|x| x.0 == s.0 && x.1 == s.1) { starts.push(s.clone()); } } } } }
+        for op in &plan.ops { if let Op::SetScripts { cmd, list } = op { if *cmd != 2 { for s in list { starts.push(s.clone()); } } } }
         // ---- the crash-free run: writes per operation, and where syncing ends up ----
         verif_hook::CRASH_AT.with(|c| c.set(0));
+        if std::env::var("VERIF_DEBUG_CASE").map(|c| c == format!("{}-ref", hist)).unwrap_or(false) { std::env::set_var("VERIF_DEBUG", "1"); } else { std::env::remove_var("VERIF_DEBUG"); }
         let mut w = build(&plan);
         let mut writes: Vec<u64> = Vec::new();
         let mut ok = true;
@@ -339,7 +376,24 @@ pub(crate) fn run(seed: u64, n: u64, out: &mut Out) {
                         let proven = w.net.as_ref().unwrap().peers.get_state(&w.peer).map(|s| s.get_prove_state().is_some()).unwrap_or(false);
                         if start > w.height || regs.is_empty() || !proven { Some("[]".to_string()) } else {
                             let end = (start + batch - 1).min(w.height);
-                            let count = end - start + 1;
+                            let sent = end - start + 1;
+                            // how many of the filters can be verified: the hashes after the finalized check point, or the cached
+                            // hashes of the interval the batch starts in (none: the batch is ignored)
+                            let (fin, _) = w.storage.get_last_check_point();
+                            let fin_number = fin as u64 * INTERVAL;
+                            let peers = &w.net.as_ref().unwrap().peers;
+                            let known: u64 = if start <= fin_number {
+                                let (ci, hashes) = peers.get_cached_block_filter_hashes();
+                                let cn = ci as u64 * INTERVAL;
+                                if start <= cn || start > cn + INTERVAL || hashes.is_empty() || start - cn - 1 > hashes.len() as u64 { 0 } else { hashes.len() as u64 - (start - cn - 1) }
+                            } else {
+                                let latest = peers.get_latest_block_filter_hashes(fin).len() as u64;
+                                if start - fin_number - 1 > latest { 0 } else { latest - (start - fin_number - 1) }
+                            };
+                            let count = sent.min(known);
+                            if count == 0 { model_ws = Some(format!("{}|[]", state_term(&st0))); }
+                            let count = count.max(1);
+                            let end = start + count - 1;
                             // a filter matches when the block touches (in any role) a script registered below the end of the batch
                             let ms: Vec<u64> = (start..=end).filter(|n| regs.iter().any(|(sid, _, num)| *sid < w.pool.len() && *num < start + count && w.chain().touches(*n, &w.pool[*sid]))).collect();
                             let mem_empty = w.net.as_ref().unwrap().peers.matched_blocks().read().map(|m| m.is_empty()).unwrap_or(true);
@@ -358,7 +412,7 @@ pub(crate) fn run(seed: u64, n: u64, out: &mut Out) {
                     Op::SetScripts { cmd, list } => { if *cmd != 0 && list.is_empty() { Some("[]".to_string()) } else { Some("SET".to_string()) } }
                     _ => None,
                 };
-                model_ws = ws.map(|x| format!("{}|{}", state_term(&st0), x));
+                if model_ws.is_none() { model_ws = ws.map(|x| format!("{}|{}", state_term(&st0), x)); }
                 trace.borrow_mut().clear();
                 let (tr, st, pool) = (trace.clone(), w.storage.clone(), w.pool.clone());
                 let chain_hashes: Vec<(packed::Byte32, u64)> = w.chain().chain.headers.iter().map(|h| (h.hash(), h.number())).collect();
@@ -417,7 +471,7 @@ pub(crate) fn run(seed: u64, n: u64, out: &mut Out) {
                 // process death: nothing in memory survives; the honest peer is where the plan leaves it
                 w.net = None;
                 w.inbox.clear();
-                if let Some(Op::Prove { on_fork, height }) = plan.ops.iter().rev().find(|o| matches!(o, Op::Prove { .. })) { w.on_fork = *on_fork; w.height = (*height).min(if *on_fork { w.fork.tip() } else { w.main.tip() }); }
+                // (the peer's position is whatever the replayed operations leave it at)
                 let mut problems: Vec<String> = Vec::new();
                 let started = catch(|| w.start());
                 if started.is_none() {
